@@ -121,6 +121,9 @@ def corpus():
     # empty programs
     C.append((1, 0, [[]], []))
     C.append((3, 2, [[], [], []], []))
+    # resize while several workers sleep and several jobs wait: growing the limit has to wake ALL of them (work conservation)
+    C.append((3, 2, [["r1", "a0", "a1", "a2", "r3", "j"]], [[]] * 3))
+    C.append((3, 1, [["r1", "a0", "a1"], ["r2", "j", "r3"]], [[]] * 2))
     out = []
     for th, q, progs, bodies in C:
         out.append(Case(th, q, progs, [list(b) for b in bodies]))
@@ -239,19 +242,27 @@ def report(ctx, runner, bads, tag):
             ctx.violation(replay, what="pool.c no longer corresponds to the model: %s" % b["diff"][:300], no_input=True)
 
 
-def search_config(ctx, runner, config, bound=2, maxruns=20000):
+def search_config(ctx, runner, config, bound=2, maxruns=20000, sweep=True):
+    """Look for a concrete property failure (an oracle line) on the implementation: (1) all schedules of [config] with at
+    most [bound] preemptions, (2) a seeded sweep of random schedules over [config] and the boundary corpus."""
     th, q, progs, bodies = parse_config(config)
     c = Case(th, q, progs, bodies, policy="n", explore=bound, maxruns=maxruns)
+    out = []
     try:
         oks, bads, xs, _ = runner.run([c], "search", timeout=300)
+        out = [b for b in map(parse_bad, bads) if b.get("oracle")]
+        if not out and sweep:
+            rng = random.Random(ctx.seed * 104729 + 7)
+            cs = []
+            for base in [Case(th, q, progs, bodies)] + corpus():
+                for k in range(400):
+                    cs.append(Case(base.threads, base.queue, base.progs, base.bodies, policy="r", seed=rng.getrandbits(40),
+                                   stay=rng.choice([0, 0, 30, 60])))
+            oks, bads, xs, _ = runner.run(cs, "sweep", timeout=300)
+            out = [b for b in map(parse_bad, bads) if b.get("oracle")]
     except Exception as e:  # noqa
         core.log("search failed:", repr(e))
         return []
-    out = []
-    for ln in bads:
-        b = parse_bad(ln)
-        if b.get("oracle"):
-            out.append(b)
     out.sort(key=lambda b: b["steps"])
     return out
 
@@ -274,7 +285,7 @@ def proof_search(ctx, runner):
         implementation with the oracles over the corpus, exhaustively with a small preemption bound."""
         out = []
         for c in corpus()[:8]:
-            for b in search_config(ctx, runner, c.config(), bound=1, maxruns=3000)[:1]:
+            for b in search_config(ctx, runner, c.config(), bound=1, maxruns=3000, sweep=False)[:1]:
                 out.append((dict(kind="schedule", config=b["config"], sched=b["sched"], variant=runner.variant,
                                  observed=dict(end=b["end"], oracle=b["oracle"])), "C12 proof broken and the implementation fails: " + b["oracle"]))
         return out
